@@ -117,7 +117,11 @@ def transcendental_axioms(apps, light=False):
             ax.append(E(t) * E(neg) == 1)
     for a, b in itertools.combinations(ex, 2):
         ax += [z3.Implies(a < b, E(a) < E(b)), z3.Implies(b < a, E(b) < E(a))]
-        s = simp.get(z3.simplify(a + b).sexpr())
+        ssum = z3.simplify(a + b)
+        if z3.is_rational_value(ssum) and ssum.as_fraction() == 0:
+            ax.append(E(a) * E(b) == 1)
+            continue
+        s = simp.get(ssum.sexpr())
         if s is not None:
             ax.append(E(a) * E(b) == E(s))
     lg = list(apps["LOG"].values())
